@@ -370,15 +370,15 @@ def handleStrategy (j : Json) : Except String Verdict := do
 Correspondence: the model's printer on the traced fields writes the crate's JSON, the model's reader on that JSON is what the
 crate reads back.  Specification (C09, "for all schemas the crate can trace"): a traced schema survives `to_value` /
 `from_value` unchanged.  Tie to the theorems `C09_from_type_in_domain` / `C09_from_samples_in_domain`: the traced fields lie
-in `SchemaOK`, except for the one documented shape — a never-reached position traced as a non-nullable `Null` under
-`allow_null_fields`, from samples only (`C09_unseen_position_outside`, known finding `C09-traced-unseen-null`). -/
+in `SchemaOK` — for every option (a never-reached position is traced as a NULLABLE `Null` under `allow_null_fields` since
+repo fix 01bb847, finding `C09-traced-unseen-null`; the pinned behaviour is `C09_unseen_position_outside_pinned`). -/
 def handleTraced (j : Json) : Except String Verdict := do
   let esc ← escOf j
   let allowNull := ((← getObj j "opts").getObjValAs? Bool "allow_null_fields").toOption.getD false
   let hasOw := match (← getObj j "opts").getObjVal? "overwrites" with
     | .ok (.arr a) => !a.isEmpty
     | _ => false
-  let mut tags : List String := []
+  let mut tags : List String := if allowNull then ["allow-null-fields"] else []
   let mut problems : List (String × String) := []
   let mut specFail : List (String × String) := []
   let mut outcomes : List Json := []
@@ -409,7 +409,7 @@ def handleTraced (j : Json) : Except String Verdict := do
       if let some w ← diffOutcome s!"{what}: from_value(to_value(schema))" (parseSchema (toJVal ij)) back then
         problems := problems ++ [(s!"C09/traced/{what}/read/{firstCtor fs}", w)]
       -- the theorems: traced fields lie in the domain
-      if !inDomain && !hasOw && !(what == "from_samples" && allowNull && blame == some "Null/non-nullable") then
+      if !inDomain && !hasOw then
         problems := problems ++ [(s!"C09/traced/{what}/outside-domain/{blame.getD "?"}", s!"{what} returned a schema outside SchemaOK ({blame.getD "?"}): contradicts C09_{what}_in_domain")]
       -- specification: the traced schema survives the JSON form
       let (bcls, bfs) ← implFields back
